@@ -41,7 +41,7 @@ struct FaultClass {
     label: &'static str,
     kinds: Vec<Kind>,
     suffix: &'static str,
-    /// 0 = Fail(EIO), 1 = Fail(ENOSPC), 2 = Short
+    /// 0 = Fail(EIO), 1 = Fail(ENOSPC), 2 = Short, 3 = Fail(ENOENT) (the only error kind pearl maps to "work dir unavailable")
     mode: u8,
 }
 
@@ -49,6 +49,7 @@ fn classes() -> Vec<FaultClass> {
     vec![
         FaultClass { label: "blob-write-eio", kinds: vec![Kind::Write], suffix: ".blob", mode: 0 },
         FaultClass { label: "blob-write-short", kinds: vec![Kind::Write], suffix: ".blob", mode: 2 },
+        FaultClass { label: "blob-write-enoent", kinds: vec![Kind::Write], suffix: ".blob", mode: 3 },
         FaultClass { label: "blob-sync-eio", kinds: vec![Kind::Sync], suffix: ".blob", mode: 0 },
         FaultClass { label: "blob-create-enospc", kinds: vec![Kind::Create], suffix: ".blob", mode: 1 },
         FaultClass { label: "blob-open-eio", kinds: vec![Kind::Open], suffix: ".blob", mode: 0 },
@@ -633,6 +634,7 @@ fn eval_history<const N: usize>(ctx: &Ctx, sh: &mut Shard, rng: &mut Rng, cfg: &
         let action = match c.mode {
             0 => Action::Fail(libc::EIO),
             1 => Action::Fail(libc::ENOSPC),
+            3 => Action::Fail(libc::ENOENT),
             // always shorter than the smallest record (a deletion marker: header + 8 bytes of empty meta), so the
             // failed append is torn for real; lengths from the record header size up leave the header intact
             _ => Action::Short(rng.range(1, (57 + N + 8 - 1) as u64), libc::ENOSPC),
@@ -769,10 +771,8 @@ pub fn replay(r: &Value) -> i32 {
         let action = if a.starts_with("Short(") {
             let n: u64 = a.trim_start_matches("Short(").split(',').next().and_then(|v| v.trim().parse().ok()).unwrap_or(10);
             Action::Short(n, libc::ENOSPC)
-        } else if a.contains("28") {
-            Action::Fail(libc::ENOSPC)
         } else {
-            Action::Fail(libc::EIO)
+            Action::Fail(a.trim_start_matches("Fail(").trim_end_matches(')').parse().unwrap_or(libc::EIO))
         };
         Some((Fault { kinds: c.kinds.clone(), suffix: c.suffix.to_string(), nth: x["nth"].as_u64().unwrap_or(0), sticky: false, action }, c.label))
     });
